@@ -401,6 +401,9 @@ def monitorOp (mu : Mon) (prev : Args) (toks : List String) (implOk : Bool) (out
       (match mu.cap0 with
         | some (some c) => if sc > c then [mk "C13" "C13/cap-exceeded" s!"supply={sc} cap0={c}"] else []
         | _ => []) ++
+      -- a Mint call (of any amount, also 0) is accepted only from the registered minter: "no address can ever mint"
+      (if kind == "mint" && implOk && prev.str "minter" != snd then
+        [mk "C13" "C13/mint-accepted-from-non-minter" s!"mint amt={amt} from {snd} accepted, minter={prev.str "minter"}"] else []) ++
       -- the tokens in circulation (sum of the listed balances), not only the recorded supply
       (let sumPrev := (obsBal prev).foldl (fun acc p => acc + p.2) 0
        (if sumBal > sumPrev && !(kind == "mint" && prev.str "minter" == snd && implOk) then
